@@ -134,7 +134,8 @@ def _ellipse(draw):
     if log and c['kind'] in ('array_i', 'sample_i') and c['cells'] and draw(st.booleans()):
         c['cells'][0][sel[0]] = 0        # a non-positive cell under log: simply not kept
     nbad = draw(st.sampled_from([None, None, None, 1, 3]))
-    return dict(arm='ellipse', c=c, sel=sel, spell=[draw(st.sampled_from([True, False, 'neg'])) for _ in sel], center=[cx, cy], a=a, b=b,
+    int_center = exact and draw(st.booleans())
+    return dict(arm='ellipse', int_center=int_center, c=c, sel=sel, spell=[draw(st.sampled_from([True, False, 'neg'])) for _ in sel], center=[cx, cy], a=a, b=b,
                 theta=theta, log=log, exact=exact, bad_channels=nbad)
 
 
@@ -180,6 +181,15 @@ def check(case, obs):
     cells = c['cells']
     N = len(cells)
     obs.label('arm:' + arm, 'kind:' + c['kind'], 'N=0' if N == 0 else ('N=1' if N == 1 else 'N>1'))
+    before = fingerprint(data)
+    try:
+        _check(case, obs, gate, arm, c, data, ranges, cells, N)
+    finally:
+        obs.claim('input_intact', not fp_diff(before, fingerprint(data)),
+                  lambda: 'the gate changed its input: %r' % fp_diff(before, fingerprint(data)))
+
+
+def _check(case, obs, gate, arm, c, data, ranges, cells, N):
     if arm == 'start_end':
         s, e = case['num_start'], case['num_end']
         s0, e0 = max(s, 0), max(e, 0)
@@ -227,6 +237,7 @@ def check(case, obs):
         sel = case['sel']
         ch = [_chan(c, j, sp) for j, sp in zip(sel, case['spell'])]
         cx, cy = case['center']
+        center_arg = [int(cx), int(cy)] if case.get('int_center') else [cx, cy]     # plain Python ints are legal centres
         a, b, th, log = case['a'], case['b'], case['theta'], case['log']
         if case['bad_channels'] is not None:
             bad = ([ch[0]] if case['bad_channels'] == 1 else [ch[0], ch[1], ch[0]])
@@ -234,8 +245,8 @@ def check(case, obs):
             obs.claim('refuse', raised(r), lambda: 'ellipse with %d channels accepted' % len(bad))
             obs.nontrivial = True
             return
-        full = call(gate.ellipse, data, ch, center=[cx, cy], a=a, b=b, theta=th, log=log, full_output=True)
-        short = call(gate.ellipse, data, ch, center=[cx, cy], a=a, b=b, theta=th, log=log)
+        full = call(gate.ellipse, data, ch, center=center_arg, a=a, b=b, theta=th, log=log, full_output=True)
+        short = call(gate.ellipse, data, ch, center=list(center_arg), a=a, b=b, theta=th, log=log)
         if not obs.claim('returns', not raised(full) and not raised(short), lambda: 'ellipse raised %r / %r' % (full, short)):
             return
         cs, sn = math.cos(th), math.sin(th)
